@@ -21,11 +21,12 @@ Definition chunks_of (a : args) (i j : nat) : list (list N) :=
    S: the outcome under the given chunking is the outcome of the single-chunk run. *)
 Definition s_chunk (a : args) : list (list Z) := skipn 3 a.
 
-(* c14.sweep : [fmt; cfg; batch_size; variant] [input] [family; p; q]
+(* c14.sweep : [fmt; cfg; batch_size; variant] [input] [family; p; q; admissible cut positions (families 7-9)]
    -> [number of chunkings in the family] [first chunking whose outcome differs] [its outcome].
    S: every chunking of the family gives the single-chunk outcome, i.e. the last two groups are empty. *)
-Definition family_count (fam : Z) (n p : Z) : Z :=
-  if (fam =? 0)%Z || (fam =? 4)%Z then (n + 1)%Z
+Definition family_count (fam : Z) (n p k : Z) : Z :=
+  if (fam =? 7)%Z then k else if (fam =? 8)%Z then (2 ^ k)%Z else if (fam =? 9)%Z then 1%Z
+  else if (fam =? 0)%Z || (fam =? 4)%Z then (n + 1)%Z
   else if (fam =? 1)%Z then (if (n =? 0)%Z then 1 else 2 ^ (n - 1))%Z
   else if (fam =? 2)%Z then 1%Z
   else if (fam =? 3)%Z then p
@@ -34,7 +35,7 @@ Definition family_count (fam : Z) (n p : Z) : Z :=
   else 0%Z.
 Definition s_sweep (a : args) : list (list Z) :=
   let f := arg 2 a in
-  [ [family_count (nth 0 f 0%Z) (Z.of_nat (List.length (arg 1 a))) (nth 1 f 0%Z)]; []; [] ].
+  [ [family_count (nth 0 f 0%Z) (Z.of_nat (List.length (arg 1 a))) (nth 1 f 0%Z) (Z.of_nat (List.length f - 3))]; []; [] ].
 
 (* ---- IPC framing ---------------------------------------------------------------------------
    [stream] [chunk boundaries] [oracle: valid; bodyLength; kind (0 none / 1 batch / 2 err); rows, per message] *)
